@@ -112,7 +112,7 @@ def msg_field(m, name):
 def o2(tier):
     """process_application_message stores exactly the decoded rumor"""
     ob = Ob('O2', 'process_application_message: the stored Message carries the decoded rumor\'s pubkey/kind/created_at/content/tags/event unchanged, wrapper id, '
-                  'state Processed, epoch = MLS epoch; author verified first; message saved before its processed-record; group saved iff the pointer moved',
+                  'state Processed, epoch = the epoch handed in by the dispatcher (C04-O3: the message\'s own epoch); author verified first; message saved before its processed-record; group saved iff the pointer moved',
             pure=C.PURE_MLS, models=C.unsigned_event_models())
     f = ob.fn(CORE, 'application::process_application_message')
     paths = ob.explore(f, app_args())
@@ -262,13 +262,18 @@ def o6(tier):
     return _shared(lambda: C10.o4(tier), 'O6', 'shared with C10-O4: on SQLite re-saving a message (the own-copy confirmation) writes every column from its own field')
 
 
+def o8(tier):
+    from props import C04
+    return _shared(lambda: C04.o3(tier), 'O8', 'shared with C04-O3: a received message is recorded under the epoch it was created in, so a rollback invalidates exactly the messages of the abandoned epochs (a late message from before the fork stays valid)')
+
+
 def o7(tier):
     from props import C10
     return _shared(lambda: C10.o8(tier), 'O7', 'shared with C10-O8: on SQLite a saved message is read back with the timestamp / kind / epoch it was saved with')
 
 
 def run(tier, seed, only=None):
-    obs = [('O1', o1), ('O2', o2), ('O3', o3), ('O4', o4), ('O5', o5), ('O6', o6), ('O7', o7)]
+    obs = [('O1', o1), ('O2', o2), ('O3', o3), ('O4', o4), ('O5', o5), ('O6', o6), ('O7', o7), ('O8', o8)]
     out = []
     for k, f in obs:
         if only and k not in only:
